@@ -4,6 +4,7 @@ import (
 	"context"
 	"fmt"
 	"math"
+	"sync/atomic"
 	"testing"
 	"time"
 
@@ -17,12 +18,13 @@ import (
 	"github.com/filecoin-project/go-f3/verifharness/vds"
 	"github.com/filecoin-project/go-f3/verifharness/vev"
 	"github.com/filecoin-project/go-f3/verifharness/votel"
+	"github.com/libp2p/go-libp2p/core/network"
 	"github.com/libp2p/go-libp2p/core/peer"
 	"pgregory.net/rapid"
 )
 
 const c20 = "C20"
-const c20rule = "generated certificate production patterns (steady one per period, bursts, stall, resume) on 1..3 serving peers (some lagging or empty) behind real certexchange servers, generated min/initial/max intervals; (1) single polling rounds of a real Subscriber: the progress it reports must equal the number of instances by which its store advanced; (2) closed loop: the production run loop on a mock clock in lock-step with the harness (the loop's own gauge, recorded right after it re-arms its timer, hands the harness the exact delay): every delay must equal the interval a shadow production predictor returns when fed the true store advancement, extended by nothing (no mock time passes during requests), and under steady production within [min,max] the settled cadence must be within a factor 2 of the production period. " +
+const c20rule = "generated certificate production patterns (steady one per period, bursts, stall, resume) on 1..3 serving peers (some lagging or empty) behind real certexchange servers, generated min/initial/max intervals; (1) single polling rounds of a real Subscriber: the progress it reports must equal the number of instances by which its store advanced; (2) closed loop: the production run loop on a mock clock in lock-step with the harness (the loop's own gauge, recorded right after it re-arms its timer, hands the harness the exact delay): every delay must equal the interval a shadow production predictor returns when fed the true store advancement, extended by nothing when no mock time passed during its requests; in rounds where a serving peer answers only after mock time has passed (sometimes longer than the interval) the time from poll to poll must lie in [interval, max(interval, request time) + min(request time, interval/2)]; under steady production within [min,max] the settled cadence must be within a factor 2 of the production period. " +
 	"Non-trivial = polling round that advanced the store / loop with at least one round that advanced by 1 and one that advanced by 0 or >= 2; distinct by digest of the pattern and settings"
 
 type pollWorld struct {
@@ -32,6 +34,8 @@ type pollWorld struct {
 	chain   []*certs.FinalityCertificate
 	clk     *clock.Mock
 	stop    func()
+	// onRequest runs in a serving peer's handler before it answers
+	onRequest atomic.Pointer[func()]
 }
 
 // newPollWorld: nPeers serving stores (initially empty), a subscriber with an empty store,
@@ -47,7 +51,6 @@ func newPollWorld(t *rapid.T, ctx context.Context, nPeers int, total int, min, i
 	w := &pollWorld{chain: src.certs, clk: clock.NewMock()}
 	w.clk.Set(time.Unix(1_700_000_000, 0))
 	var peers []peer.ID
-	var srvs []*certexchange.Server
 	for i := 0; i < nPeers; i++ {
 		ds := vds.New()
 		st, err := certstore.CreateStore(ctx, ds, src.first, src.tables[0])
@@ -56,10 +59,18 @@ func newPollWorld(t *rapid.T, ctx context.Context, nPeers int, total int, min, i
 		}
 		w.servers = append(w.servers, &testStore{ds: ds, st: st, first: src.first})
 		srv := &certexchange.Server{NetworkName: nn, Host: hs[i+1], Store: st, RequestTimeout: 30 * time.Second}
-		if err := srv.Start(ctx); err != nil {
-			t.Fatalf("HARNESS: %v", err)
-		}
-		srvs = append(srvs, srv)
+		// the real request handler behind a harness stream handler, so that mock time can pass
+		// while a request is in flight (a slow peer)
+		hs[i+1].SetStreamHandler(certexchange.FetchProtocolName(nn), func(stream network.Stream) {
+			if f := w.onRequest.Load(); f != nil {
+				(*f)()
+			}
+			if err := srv.VerifHandle(ctx, stream); err != nil {
+				_ = stream.Reset()
+			} else {
+				_ = stream.Close()
+			}
+		})
 		peers = append(peers, hs[i+1].ID())
 	}
 	if dead == 1 {
@@ -80,12 +91,7 @@ func newPollWorld(t *rapid.T, ctx context.Context, nPeers int, total int, min, i
 	if err := w.sub.VerifPrepare(ctx, w.clk, peers); err != nil {
 		t.Fatalf("HARNESS: prepare: %v", err)
 	}
-	w.stop = func() {
-		for _, s := range srvs {
-			_ = s.Stop(context.Background())
-		}
-		_ = mn.Close()
-	}
+	w.stop = func() { _ = mn.Close() }
 	return w
 }
 
@@ -239,6 +245,29 @@ func TestC20ClosedLoop(t *testing.T) {
 				w.produce(t, i, n)
 			}
 		}
+		// request time: in some rounds the first peer asked answers only after mock time has
+		// passed (a slow peer), sometimes longer than the interval that will be predicted
+		// (the mock clock may only be moved by one goroutine: the handler hands the request to
+		// the harness goroutine, which moves the clock and releases it)
+		var pendingReq, consumedReq atomic.Int64
+		reqArrived := make(chan int64)
+		reqRelease := make(chan struct{})
+		hook := func() {
+			if d := pendingReq.Swap(0); d > 0 {
+				select {
+				case reqArrived <- d:
+				case <-ctx.Done():
+					return
+				}
+				select {
+				case <-reqRelease:
+				case <-ctx.Done():
+				}
+			}
+		}
+		w.onRequest.Store(&hook)
+		slowRounds, overruns := 0, 0
+		slowLoop := rapid.Bool().Draw(t, "slowloop")
 		before := storeNext(w.subSt, first)
 		wait := initI
 		var obs []time.Duration
@@ -253,6 +282,11 @@ func TestC20ClosedLoop(t *testing.T) {
 			// everything produced up to the wake-up time exists before the loop wakes up
 			// (production never races with the loop's requests)
 			produceUntil(w.clk.Now().Add(wait))
+			consumedReq.Store(0)
+			pendingReq.Store(0)
+			if slowLoop && rapid.IntRange(0, 4).Draw(t, "slowround") == 0 {
+				pendingReq.Store(int64(time.Duration(rapid.IntRange(1, 3*int(maxI/time.Second)/2).Draw(t, "reqSec")) * time.Second / time.Duration(rapid.SampledFrom([]int{1, 1, 4, 20}).Draw(t, "reqdiv"))))
+			}
 			w.clk.Add(wait)
 			var d time.Duration
 			got := false
@@ -260,6 +294,10 @@ func TestC20ClosedLoop(t *testing.T) {
 				select {
 				case d = <-delays:
 					got = true
+				case rq := <-reqArrived:
+					w.clk.Add(time.Duration(rq))
+					consumedReq.Add(rq)
+					reqRelease <- struct{}{}
 				case err := <-loopDone:
 					vev.Fail(t, c20, "C20/loop/exited", "the polling loop exited: %v", err)
 				case <-time.After(3 * time.Second):
@@ -275,8 +313,24 @@ func TestC20ClosedLoop(t *testing.T) {
 			progress := after - before
 			before = after
 			want := shadow.Update(progress)
-			if diff := d - want; diff < -time.Microsecond || diff > time.Microsecond {
-				vev.Fail(t, c20, "C20/loop/delay-not-predicted-interval", "round %d: store advanced by %d, a predictor fed that progress says %v, the loop waits %v (no mock time passed during its requests, so no extension is due); settings min=%v initial=%v max=%v pattern=%s period=%v; trace %v", r, progress, want, d, minI, initI, maxI, pattern, period, trace)
+			req := time.Duration(consumedReq.Load())
+			pendingReq.Store(0)
+			if req == 0 {
+				if diff := d - want; diff < -time.Microsecond || diff > time.Microsecond {
+					vev.Fail(t, c20, "C20/loop/delay-not-predicted-interval", "round %d: store advanced by %d, a predictor fed that progress says %v, the loop waits %v (no mock time passed during its requests, so no extension is due); settings min=%v initial=%v max=%v pattern=%s period=%v; trace %v", r, progress, want, d, minI, initI, maxI, pattern, period, trace)
+				}
+			} else {
+				// the time from this poll to the next is the predicted interval, extended only by
+				// the time the requests took and by at most half the interval
+				slowRounds++
+				if req > want {
+					overruns++
+				}
+				total := req + d
+				upper := max(want, req) + min(req, want/2)
+				if total < want-time.Microsecond || total > upper+time.Microsecond {
+					vev.Fail(t, c20, "C20/loop/delay-with-request-time", "round %d: store advanced by %d, predicted interval %v, the requests took %v of mock time, the loop then waits %v: %v from poll to poll is outside [%v, %v]; settings min=%v initial=%v max=%v pattern=%s; trace %v", r, progress, want, req, d, total, want, upper, minI, initI, maxI, pattern, trace)
+				}
 			}
 			if progress == 1 {
 				sawOne = true
@@ -284,7 +338,11 @@ func TestC20ClosedLoop(t *testing.T) {
 				sawOther = true
 			}
 			obs = append(obs, d)
-			trace = append(trace, fmt.Sprintf("+%d->%v", progress, d))
+			if req > 0 {
+				trace = append(trace, fmt.Sprintf("+%d(req %v)->%v", progress, req, d))
+			} else {
+				trace = append(trace, fmt.Sprintf("+%d->%v", progress, d))
+			}
 			wait = d
 			select {
 			case proceed <- struct{}{}:
@@ -293,7 +351,7 @@ func TestC20ClosedLoop(t *testing.T) {
 			}
 		}
 		// cadence under steady production inside [min, max]
-		if pattern == "steady" && period > minI && period < maxI && len(obs) >= 40 {
+		if pattern == "steady" && period > minI && period < maxI && len(obs) >= 40 && slowRounds == 0 {
 			tail := obs[len(obs)*2/3:]
 			var sum time.Duration
 			for _, d := range tail {
@@ -305,7 +363,7 @@ func TestC20ClosedLoop(t *testing.T) {
 			}
 			vev.Label(c20, "cadence-checked")
 		}
-		vev.Case(c20, vev.Digest("loop", pattern, period, minI, initI, maxI, rounds, nPeers), sawOne && sawOther, "closed-loop", "pattern:"+pattern, fmt.Sprintf("progress-1-and-other:%v", sawOne && sawOther))
+		vev.Case(c20, vev.Digest("loop", pattern, period, minI, initI, maxI, rounds, nPeers), sawOne && sawOther, "closed-loop", "pattern:"+pattern, fmt.Sprintf("progress-1-and-other:%v", sawOne && sawOther), fmt.Sprintf("slow-round:%v", slowRounds > 0), fmt.Sprintf("round-longer-than-interval:%v", overruns > 0))
 		vev.Sample(c20, func() any {
 			tr := trace
 			if len(tr) > 30 {
